@@ -31,6 +31,7 @@ PROGRAMS = {
     "P3": ["build", "edit", "where", "render"],
     "P4": ["cli_render"],
     "P5": ["build", "render", "edit", "where", "render"],  # reference runs only: rendering before an edit must not matter
+    "P6": ["build", "render_odeint", "render_pattern", "render"],  # reference runs only: another back-end / the pattern option in between must not matter
 }
 
 
@@ -201,15 +202,15 @@ def tree_hash(root: Path):
     return h.hexdigest()[:20], n
 
 
-def do_render(c, net, work):
+def do_render(c, net, work, solver=("cvode", "dense", "cpu"), pattern=False):
     from ..harness.render import BACKENDS, template_loader, quiet
 
     out = Path(tempfile.mkdtemp(dir=work))
     try:
         from naunet.templateloader import TemplateLoader
 
-        tl = TemplateLoader("cvode", "dense", "cpu")
-        tl.render("proj", net, path=out, save=True)
+        tl = TemplateLoader(*solver)
+        tl.render("proj", net, path=out, save=True, jac_pattern=pattern)
         return tree_hash(out)[0]
     finally:
         shutil.rmtree(out, ignore_errors=True)
@@ -266,6 +267,10 @@ def run_schedule(arg):
                     elif stepname == "render":
                         gl.add(globals_snapshot())
                         obs.append((c, "edited" if edited else "plain", do_render(c, nets[ci], work)))
+                    elif stepname == "render_odeint":
+                        obs.append((c, "odeint", do_render(c, nets[ci], work, ("odeint", "rosenbrock4", "cpu"))))
+                    elif stepname == "render_pattern":
+                        obs.append((c, "sparse+pattern", do_render(c, nets[ci], work, ("cvode", "sparse", "cpu"), True)))
                     elif stepname == "cli_render":
                         gl.add(globals_snapshot())
                         obs.append((c, "cli", do_cli_render(c, mat, work)))
@@ -385,6 +390,7 @@ def run(ctx):
             ref_scheds.append(([(c, "P2")], [(0, "build"), (0, "render"), (0, "render")]))
             ref_scheds.append(([(c, "P3")], [(0, "build"), (0, "edit"), (0, "where"), (0, "render")]))
             ref_scheds.append(([(c, "P5")], [(0, "build"), (0, "render"), (0, "edit"), (0, "where"), (0, "render")]))
+            ref_scheds.append(([(c, "P6")], [(0, "build"), (0, "render_odeint"), (0, "render_pattern"), (0, "render")]))
     ref = {}
     nexec = 0
     for s in seeds:
